@@ -633,6 +633,11 @@ def _incremental_bijection(ctx, fi: FuncInfo, call: ast.Call):
         v = st.value
         if isinstance(v, ast.Name):
             v = single_def(fn, v.id) or v
+        # pool = pools[p]; x = pool.pop()   -- the pool taken out of the table first
+        if isinstance(v, ast.Call) and isinstance(v.func, ast.Attribute) and v.func.attr == "pop" and not v.args and isinstance(v.func.value, ast.Name):
+            alias = single_def(fn, v.func.value.id)
+            if isinstance(alias, ast.Subscript):
+                v = ast.copy_location(ast.Call(ast.Attribute(alias, "pop", ast.Load()), [], []), v)
         if not (isinstance(v, ast.Call) and isinstance(v.func, ast.Attribute) and v.func.attr == "pop" and not v.args and isinstance(v.func.value, ast.Subscript)
                 and isinstance(v.func.value.value, ast.Name)):
             if isinstance(v, ast.Call) and not (isinstance(v.func, ast.Name) and v.func.id in ("len", "int", "min", "max", "sum", "abs", "next")):
